@@ -41,21 +41,23 @@ type vestEnv struct {
 	n *chain.Node
 	// the governance module account acting as a pool owner (its messages are executed the way
 	// an accepted proposal executes them); only used when govOwner is set
-	govKey     chain.Key
-	govOwner   bool
-	niceFees   bool // fees are multiples of 20 (see genOp0)
-	owners     []chain.Key
-	strangers  []chain.Key
-	keys       map[string]chain.Key
-	types      []vtInfo
-	traced     map[string]bool // shadow: address has a trace
-	derived    map[string]bool // shadow: address is genesis-derived
-	depth      map[string]int  // lineage depth (for coverage)
-	cvaKeys    []chain.Key     // keys of continuous vesting accounts known to the harness
-	nextKey    int
-	bounds     []time.Time // interesting instants (lock ends, vesting starts/ends)
-	moduleAddr string
-	feeAddr    string
+	govKey             chain.Key
+	govOwner           bool
+	niceFees           bool // fees are multiples of 20 (see genOp0)
+	signBytesChecked   map[string]bool
+	signBytesGapsFound []string
+	owners             []chain.Key
+	strangers          []chain.Key
+	keys               map[string]chain.Key
+	types              []vtInfo
+	traced             map[string]bool // shadow: address has a trace
+	derived            map[string]bool // shadow: address is genesis-derived
+	depth              map[string]int  // lineage depth (for coverage)
+	cvaKeys            []chain.Key     // keys of continuous vesting accounts known to the harness
+	nextKey            int
+	bounds             []time.Time // interesting instants (lock ends, vesting starts/ends)
+	moduleAddr         string
+	feeAddr            string
 	// special targets for C09
 	baseNoKey   chain.Key
 	baseWithKey chain.Key
@@ -534,8 +536,66 @@ type txOutcome struct {
 	preSpendable, postSpendable map[string]*big.Int
 }
 
+// signBytesGaps perturbs every field of a message in turn and reports the fields whose change
+// leaves the bytes that a wallet signs (amino JSON sign mode) unchanged: for such a field the
+// signature does not bind what the signer saw.
+func signBytesGaps(msg sdk.Msg) (gaps []string) {
+	lm, ok := msg.(interface{ GetSignBytes() []byte })
+	pm, ok2 := msg.(proto.Message)
+	if !ok || !ok2 {
+		return nil
+	}
+	defer func() { recover() }() // a message that cannot be marshalled signs nothing
+	base := string(lm.GetSignBytes())
+	t := reflect.TypeOf(msg).Elem()
+	for i := 0; i < t.NumField(); i++ {
+		if t.Field(i).PkgPath != "" || strings.HasPrefix(t.Field(i).Name, "XXX_") {
+			continue
+		}
+		cp := proto.Clone(pm)
+		f := reflect.ValueOf(cp).Elem().Field(i)
+		switch {
+		case f.Kind() == reflect.String:
+			f.SetString(f.String() + "x")
+		case f.Kind() == reflect.Bool:
+			f.SetBool(!f.Bool())
+		case f.Kind() == reflect.Int64:
+			f.SetInt(f.Int() + 1)
+		case f.Type() == reflect.TypeOf(sdk.Int{}):
+			if v := f.Interface().(sdk.Int); !v.IsNil() {
+				f.Set(reflect.ValueOf(v.AddRaw(1)))
+			} else {
+				continue
+			}
+		case f.Type() == reflect.TypeOf(sdk.Coins{}):
+			f.Set(reflect.ValueOf(append(append(sdk.Coins{}, f.Interface().(sdk.Coins)...), sdk.NewCoin("zzz", sdk.OneInt()))))
+		case f.Kind() == reflect.Slice && f.Type().Elem().Kind() == reflect.String:
+			f.Set(reflect.Append(f, reflect.ValueOf("zzz")))
+		default:
+			continue
+		}
+		if string(cp.(interface{ GetSignBytes() []byte }).GetSignBytes()) == base {
+			gaps = append(gaps, t.Field(i).Name)
+		}
+	}
+	return gaps
+}
+
 func (e *vestEnv) exec(op vOp, now time.Time) (*txOutcome, error) {
 	o := &txOutcome{op: op, now: now}
+	if op.custom && !e.signBytesChecked[sdk.MsgTypeURL(op.msg)] {
+		if e.signBytesChecked == nil {
+			e.signBytesChecked = map[string]bool{}
+		}
+		e.signBytesChecked[sdk.MsgTypeURL(op.msg)] = true
+		e.signBytesGapsFound = append(e.signBytesGapsFound, func() []string {
+			var out []string
+			for _, g := range signBytesGaps(op.msg) {
+				out = append(out, sdk.MsgTypeURL(op.msg)+"."+g)
+			}
+			return out
+		}()...)
+	}
 	o.pre = e.n.Snap()
 	o.prePools = e.pools()
 	actor, aerr := sdk.AccAddressFromBech32(op.owner)
